@@ -130,6 +130,28 @@ Proof.
       * rewrite upd_same in W. discriminate.
       * rewrite upd_other in W by assumption. apply (f_wait s I); assumption.
     + intros H. destruct (f_full s I H) as [X Y]. rewrite X. split; [reflexivity|exact Y].
+  - (* TrySend *)
+    cbn [step] in St. destruct (_ && _) in St; [|discriminate].
+    destruct (rx s) eqn:RX; [destruct (full (cap s) (buf s)) eqn:Fu|..]; inversion St; subst; clear St;
+      try exact I.
+    constructor; cbn.
+    + apply (f_wait s I).
+    + intros H. destruct (f_full s I H) as [_ Y]. congruence.
+  - (* CloneSender *)
+    cbn [step] in St. destruct (_ && _) in St; [|discriminate]. inversion St; subst; clear St.
+    constructor; cbn.
+    + intros u Hu W. destruct (Nat.eq_dec u (ntasks s)) as [->|Ne].
+      * rewrite upd_same in W. unfold waiting, init_task, advance in W. cbn in W.
+        destruct prog; cbn in W; discriminate.
+      * rewrite upd_other in W by assumption. apply (f_wait s I); [lia|exact W].
+    + apply (f_full s I).
+  - (* CancelSend *)
+    cbn [step] in St. destruct (_ && _) in St; [|discriminate]. inversion St; subst; clear St.
+    constructor; cbn.
+    + intros u Hu W. destruct (Nat.eq_dec u t) as [->|Ne].
+      * rewrite upd_same, done_not_waiting in W. discriminate.
+      * rewrite upd_other in W by assumption. apply (f_wait s I); assumption.
+    + apply (f_full s I).
   - cbn [step] in St. destruct (rx s) eqn:RX; try discriminate. destruct (_ || _) in St; [|discriminate].
     inversion St; subst. apply finv_closed; [exact I|discriminate].
   - cbn [step] in St. destruct (rx s) eqn:RX; try discriminate; inversion St; subst;
@@ -220,6 +242,26 @@ Proof.
     destruct (_ && _) in St; [|discriminate]. inversion St; subst; clear St.
     constructor; cbn. intros RX A D. rewrite RX in A. apply orb_false_iff in A. destruct A as [A1 A2].
     destruct (r_parked s I RX A1 D) as [_ [Rw _]]. congruence.
+  - (* TrySend *)
+    destruct (_ && _) in St; [|discriminate].
+    destruct (rx s) eqn:RX; [destruct (full (cap s) (buf s))|..]; inversion St; subst; clear St;
+      try exact I.
+    constructor; cbn. intros _ A D. apply orb_false_iff in A. destruct A as [A1 A2].
+    destruct (r_parked s I RX A1 D) as [_ [Rw _]]. congruence.
+  - (* CloneSender *)
+    destruct (_ && _) in St; [|discriminate]. inversion St; subst; clear St.
+    constructor; cbn. intros RX A D. destruct (r_parked s I RX A D) as [Bf [Rw [u [Lu Au]]]].
+    split; [exact Bf|]. split; [exact Rw|]. exists u. split; [lia|].
+    rewrite upd_other by lia. exact Au.
+  - (* CancelSend *)
+    destruct (Nat.ltb t (ntasks s)) eqn:Lt.
+    2:{ rewrite andb_false_r in St. cbn in St. discriminate. }
+    destruct (_ && _) in St; [|discriminate]. inversion St; subst; clear St.
+    constructor; cbn. intros RX A D. destruct (r_parked s I RX A D) as [Bf [Rw [u [Lu Au]]]].
+    split; [exact Bf|]. split; [exact Rw|].
+    destruct (Nat.eq_dec u t) as [->|Ne].
+    + exists t. split; [exact Lu|]. rewrite upd_same. reflexivity.
+    + exists u. split; [exact Lu|]. rewrite upd_other by assumption. exact Au.
   - destruct (rx s); try discriminate. destruct (_ || _) in St; [|discriminate].
     inversion St; subst. constructor; cbn. intros H. discriminate.
   - destruct (rx s); try discriminate; inversion St; subst; constructor; cbn; intros H; discriminate.
